@@ -18,5 +18,5 @@ SPEC = dict(
     level_note=("Trusted as C01. A Vec-backed receiver (SetUnionVec as Self) reports true for duplicates; it has no PartialOrd so it "
                 "is not a Lattice in the crate and is outside the property's domain (not instantiated)."),
     trusted_base=["std HashSet/BTreeSet/HashMap/BTreeMap extend/insert/get/len modelled as list operations"],
-    assumptions=["set/map backings hold no duplicate keys", "element/key types are u32; Max/Min over unsigned integers and bool"],
+    assumptions=["set/map backings hold no duplicate keys", "element/key types are u32; Max/Min over unsigned and signed integers and bool (char, () and 128-bit instantiations of the same macro are not instantiated)"],
 )
